@@ -21,7 +21,8 @@ class Skyline:
     epochs are numbered from the present backwards here.  rho[j] is the sampling probability at height b_j
     (rho[0] at the present)."""
 
-    def __init__(self, bounds, lam, mu, psi, rho, r=None):
+    def __init__(self, bounds, lam, mu, psi, rho, r=None, rtol=1e-12):
+        self.rtol = rtol
         self.b = [float(x) for x in bounds]  # b_0=0 < b_1 < ... < b_m = origin
         self.lam, self.mu, self.psi = list(lam), list(mu), list(psi)
         self.rho = list(rho)  # length m: at b_0..b_{m-1}
@@ -36,29 +37,43 @@ class Skyline:
         return len(self.b) - 2
 
     def _solve(self):
+        """Integrated in terms of u = 1 - E (the probability of leaving a sample): u' = psi + (lambda - mu - psi) u - lambda u^2 and
+        Phi' = (lambda - mu - psi) - 2 lambda u, with a relative tolerance on u.  E itself sits on an unstable fixed point (E = 1 for
+        lambda > mu, psi = 0): once 1 - E is below round-off in E - an old lineage of an epidemic that has since declined - the
+        E-equation stays there for ever, whereas u = 1e-20 grows back as it should."""
         self.sol = []
-        E = 1.0 - self.rho[0]
+        u = float(self.rho[0])
         Phi = 0.0
-        self.E_at_bound = [E]
+        self.E_at_bound = [1.0 - u]
         self.Phi_at_bound = [0.0]
+        self.u_at_bound = [u]
         for j in range(len(self.b) - 1):
             lam, mu, psi = self.lam[j], self.mu[j], self.psi[j]
 
             def f(h, y, lam=lam, mu=mu, psi=psi):
-                return [mu - (lam + mu + psi) * y[0] + lam * y[0] * y[0], -(lam + mu + psi) + 2.0 * lam * y[0]]
+                return [psi + (lam - mu - psi) * y[0] - lam * y[0] * y[0], (lam - mu - psi) - 2.0 * lam * y[0]]
 
-            s = solve_ivp(f, (self.b[j], self.b[j + 1]), [E, Phi], method="DOP853", rtol=1e-12, atol=1e-14, dense_output=True)
-            self.sol.append(s.sol)
-            E, Phi = s.y[0, -1], s.y[1, -1]
-            self.E_at_bound.append(E)  # value just below (younger side of) the boundary b_{j+1}
+            if u == 0.0 and psi == 0.0:
+                # nothing can be sampled from here on back to the next sampling event: u stays 0, Phi is linear
+                b0, Phi0, slope = self.b[j], Phi, lam - mu - psi
+                self.sol.append(lambda h, b0=b0, Phi0=Phi0, slope=slope: [0.0, Phi0 + slope * (h - b0)])
+                Phi = Phi0 + slope * (self.b[j + 1] - b0)
+            else:
+                s = solve_ivp(f, (self.b[j], self.b[j + 1]), [u, Phi], method="DOP853", rtol=self.rtol, atol=[1e-250 if u > 0 else 1e-18, min(1e-14, self.rtol * 1e-2)], dense_output=True)
+                if not s.success:
+                    raise RuntimeError("reference ODE integration failed: " + str(s.message))
+                self.sol.append(s.sol)
+                u, Phi = float(s.y[0, -1]), float(s.y[1, -1])
+            self.E_at_bound.append(1.0 - u)  # value just below (younger side of) the boundary b_{j+1}
             self.Phi_at_bound.append(Phi)
+            self.u_at_bound.append(u)
             if j + 1 < len(self.b) - 1:
-                E = E * (1.0 - self.rho[j + 1])
+                u = self.rho[j + 1] + u * (1.0 - self.rho[j + 1])
 
     def E(self, h, j=None):
         """E just *younger* than a boundary when h is a boundary (the value a lineage sampled there sees)."""
         j = self.epoch(h) if j is None else j
-        return float(self.sol[j](h)[0])
+        return 1.0 - float(self.sol[j](h)[0])
 
     def Phi(self, h, j=None):
         j = self.epoch(h) if j is None else j
@@ -120,7 +135,7 @@ def tree_log_density(root, sky, survival=True, origin_height=None):
     origin = sky.b[-1]
     val = logg[id(root)] + sky.log_g_ratio(root.height, origin)
     if survival:
-        val -= math.log(1.0 - sky.E_at_bound[-1])
+        val -= math.log(sky.u_at_bound[-1])
     return val
 
 
